@@ -91,7 +91,9 @@ def run(tier, seed):
             raw = data_bytes(avail, F if k % 2 else 0)
             if F % 2 == 0 and k % 3 != 2:
                 nchan, coding, bf = F // 2, "pcm", ("01", "10")[k % 2]
-                hdr = sph_util.header(nchan, promised, 2, bf, "pcm", HEADER_SIZES[(k // 2) % len(HEADER_SIZES)])
+                # (sample_coding defaults to pcm: headers written without it - TIMIT's, for one - are well-formed)
+                hdr = sph_util.header(nchan, promised, 2, bf, "pcm", HEADER_SIZES[(k // 2) % len(HEADER_SIZES)],
+                                      omit=("sample_coding",) if k % 4 == 3 else ())
                 used = raw[: frames * F].tobytes()
                 want = np.frombuffer(used, dtype="<i2" if bf == "01" else ">i2").astype(np.int16)
                 dtype_arg = None
@@ -100,7 +102,9 @@ def run(tier, seed):
                     want = want.astype(dtype_arg)
             else:
                 nchan, coding = F, ("ulaw", "alaw")[k % 2]
-                hdr = sph_util.header(nchan, promised, 1, "1", coding, HEADER_SIZES[(k // 2) % len(HEADER_SIZES)])
+                # (sample_byte_format says nothing about one-byte samples and may be absent)
+                hdr = sph_util.header(nchan, promised, 1, "1", coding, HEADER_SIZES[(k // 2) % len(HEADER_SIZES)],
+                                      omit=("sample_byte_format",) if k % 4 == 1 else ())
                 codes = raw[: frames * F]
                 dtype_arg = (np.uint8, np.int8)[(k // 5) % 2] if k % 5 == 0 else None  # a 1-byte dtype: the raw codes
                 want = codes.astype(dtype_arg) if dtype_arg is not None else (ulaw if coding == "ulaw" else alaw)[codes]
